@@ -30,7 +30,7 @@ StepOfImpl(s, r) ==
                  /\ r.reused = r.fresh
                  /\ r.reused.val.t # "value-with-error" /\ r.reused.end >= 0
                  /\ (r.reused.st = "success" /\ ~r.calls[Len(r.calls)].hasval) => r.reused.val = [t |-> "null"]
-                 /\ ((Predict(r) = r.fresh) \/ PrintT(<<"MECH", l>>)),
+                 /\ (Len(r.text) > 1500 \/ (Predict(r) = r.fresh) \/ PrintT(<<"MECH", l>>)),
           st |-> s]
 TraceLog == ndJsonDeserialize(IOEnv.TRACE)
 T == INSTANCE TraceBase WITH Log <- TraceLog, InitSt <- 0, StepOf <- StepOfImpl, ResyncAtNew <- FALSE
